@@ -11,8 +11,18 @@ impl crossbeam_channel::Sender<Vec<Term>> {
 }
 // the abstract branching heuristic: anything that satisfies the contract the property demands of custom heuristics
 #[verifier::external_body]
-fn __heu_any(adf: &Adf, interpr: &[Term]) -> (r: Option<(Var, Term)>) ensures heu_ok(interpr@, r) { unimplemented!() }
+fn __heu_any(adf: &Adf, interpr: &[Term]) -> (r: Option<(Var, Term)>) requires adf.wf(), adf.handles_ok(interpr@) ensures heu_ok(interpr@, r) { unimplemented!() }
 // the stability test of the two-valued mode: the closure `|_self, _int| true` of two_val_nogood_channel (shape obligation)
 fn __always_true(adf: &mut Adf, interpr: &[Term]) -> (r: bool) ensures r, *final(adf) == *old(adf) { true }
 #[verifier::external_body]
 fn __o_vec_to_vec(v: &Vec<Term>) -> (r: Vec<Term>) ensures r@ == v@ { v.to_vec() }
+// rule S: the public selector enum holds `&dyn Fn` values; its only use in the functions under contract is
+// `heuristic.get_heuristic()` as an argument of nogood_internal, which rule M replaces by the abstract heuristic __heu_any
+#[verifier::external_body]
+pub struct Heuristic<'a> { _p: core::marker::PhantomData<&'a u8> }
+// ASSUMED (channel): once every sender is gone, iterating the receiver yields exactly what was sent, in order.
+// The log token stands for the channel created by the caller: fresh, one sender (moved into nogood_internal and dropped there)
+#[verifier::external_body]
+fn __o_recv_all(r: &crossbeam_channel::Receiver<Vec<Term>>, Tracked(log): Tracked<&ResLog>) -> (v: Vec<Vec<Term>>)
+    ensures v@.len() == log.sent.len(), forall|k: int| 0 <= k < v@.len() ==> (#[trigger] v@[k])@ == log.sent[k]
+{ unimplemented!() }
